@@ -183,6 +183,9 @@ def r2_no_significant_child_dropped(w):
     # children may be removed only where the per-kind rules can see it: no element-dropping adaptor in front of a loop over syntax nodes
     for ok, cons, key, why, loc in e2.filter_obligations(w):
         (r.ok(cons, why) if ok else r.bad(cons, key, why, loc))
+    # the two parts of an Args node are converted together (the ground on which the filters at the closing parenthesis are confirmed; found F21)
+    for ok, cons, key, why, loc in e2.args_pairing_obligations(w):
+        (r.ok(cons, why) if ok else r.bad(cons, key, why, loc))
     return r
 
 
